@@ -370,11 +370,11 @@ fn top_level_merge<const N1: usize, const N2: usize>() {
 #[kani::proof] #[kani::unwind(5)] pub(crate) fn top_level_merge_2_0() { top_level_merge::<2, 0>() }
 #[kani::proof] #[kani::unwind(5)] pub(crate) fn top_level_merge_2_2() { top_level_merge::<2, 2>() }
 
-// ---------------------------------------------------------------------------------------------- keyed hooks, ONE key (thorough tier)
+// ---------------------------------------------------------------------------------------------- keyed hooks, ONE key: MEASURED > 1500 s of CBMC, in NO tier (kept for the record)
 /// KeyedStreamHook<_, _, TotalOrder> over a real FxHashMap with ONE key (hashbrown is within CBMC's reach only for a single entry,
 /// DESIGN.md 14.4): the released batch is an in-order prefix of that key's queue, tagged with the key; nothing lost.
 #[kani::proof] #[kani::unwind(6)]
-pub(crate) fn probe_keyed_stream_total_order_one_key() {
+pub(crate) fn deep_keyed_stream_total_order_one_key() {
     const N: usize = 2;
     let it = items::<N>();
     let key: u8 = 7;
